@@ -72,7 +72,9 @@ func crashChild(r *rng, n int) {
 		}
 		say("up\t%s\t%d\t%d\t%s\t%d", c.Request.RequestURI, id, ttl, kind, crashNow())
 		h := c.Header()
-		h["Content-Type"] = []string{"image/png"}
+		// compressible type and a 1-byte threshold: entries are stored as gzip+br variants only, so what an
+		// identity client is served after a restart is rebuilt from the persisted gzip variant
+		h["Content-Type"] = []string{"text/plain"}
 		h["X-Rid"] = []string{fmt.Sprint(id)}
 		if kind == "cacheable" {
 			h["Cache-Control"] = []string{fmt.Sprintf("max-age=%d", ttl)}
@@ -84,7 +86,7 @@ func crashChild(r *rng, n int) {
 		return nil
 	}
 	location.Reset([]config.LocationConfig{{Name: "l1", Upstream: "u1"}})
-	s := server.NewServer(server.ServerOption{Addr: ":0", Locations: []string{"l1"}, Cache: "c1", CompressMinLength: 1 << 20})
+	s := server.NewServer(server.ServerOption{Addr: ":0", Locations: []string{"l1"}, Cache: "c1", CompressMinLength: 1})
 	e := elton.New()
 	e.Use(middleware.NewDefaultError())
 	e.Use(middleware.NewDefaultFresh())
